@@ -396,6 +396,51 @@ def work_std_named_dir(chunk):
     return {"evals": len(chunk) * 3, "hist": hist, "viol": viol}
 
 
+# (d2) imports whose path begins with the letters s-t-d: only `std/<a file the compiler embeds>` is the standard library;
+# a sibling file or directory whose name merely starts with std, and a file in a std directory that the compiler does
+# not embed, are ordinary relative imports
+STD_PREFIX_CASES = {
+    "directory-name-starts-with-std": ("stdlib/x.ucg", "stdlib/x.ucg"),
+    "file-name-starts-with-std": ("std_defaults.ucg", "std_defaults.ucg"),
+    "file-named-std-dot-ucg": ("std.ucg", "std.ucg"),
+    "directory-named-stdx": ("stdx/lists.ucg", "stdx/lists.ucg"),
+    "file-in-std-directory-not-embedded": ("std/mine.ucg", "std/mine.ucg"),
+    "file-in-std-sub-directory-not-embedded": ("std/more/mine.ucg", "std/more/mine.ucg"),
+}
+
+
+def work_std_prefix(chunk):
+    hist = {}
+    viol = []
+    evals = 0
+    for name, spelling in chunk:
+        path, rel = STD_PREFIX_CASES[name]
+        d = tempfile.mkdtemp(prefix="ucgverif-c09-")
+        try:
+            e = {"let": 'let l = import "%s";\nlet r = l.v;\n' % path, "inline": 'let r = (import "%s").v;\n' % path,
+                 "in-function": 'let f = func () => (import "%s").v;\nlet r = f();\n' % path}[spelling]
+            files = {"p/" + rel: "let v = 41;\n", "decoy/" + rel: "let v = 666;\n", "p/main.ucg": e + "out json {r = r};\n"}
+            write_project(d, files)
+            bad = None
+            for cwd in (os.path.join(d, "p"), os.path.join(d, "decoy"), "/"):
+                rc, err, val = build(d, "p/main.ucg", cwd)
+                evals += 1
+                where = "project" if cwd.endswith("/p") else ("decoy-directory" if cwd.endswith("decoy") else "root")
+                if rc != 0:
+                    bad = "fails-from-%s" % where
+                elif not isinstance(val, dict) or val.get("r") != 41:
+                    bad = "wrong-file-read-from-%s" % where
+                if bad:
+                    break
+            k = "std-prefix:%s" % ("agrees" if bad is None else "VIOLATION")
+            hist[k] = hist.get(k, 0) + 1
+            if bad:
+                viol.append(("std-prefix:%s:%s" % (name, bad), {"std_prefix": name, "spelling": spelling}, {"rc": rc, "value": val, "stderr": err[-300:]}))
+        finally:
+            shutil.rmtree(d, ignore_errors=True)
+    return {"evals": evals, "hist": hist, "viol": viol}
+
+
 # (e) mod.pkg(): a module's handle on the file that defines it is an import of that file. Used while
 # that file is still being evaluated it closes a cycle, which must be reported like any other.
 PKG_MODULE = "let secret = 7;\nlet m = module {} => (r) {\n    let r = mod.pkg().secret;\n};\n"
@@ -503,6 +548,8 @@ def run(ctx):
         absorb(part)
     for part in core.pmap(work_std_named_dir, ["str", "json", "b64"], chunk=1):
         absorb(part)
+    for part in core.pmap(work_std_prefix, [(n, sp) for n in STD_PREFIX_CASES for sp in ("let", "inline", "in-function")], chunk=2):
+        absorb(part)
     ctx.sample({"graph": {"n": 2, "edges": [[0, 1], [1, 0]], "spelling": "inline"}, "model": "exit 1, diagnostic mentions the cycle"})
     ctx.sample({"position": "map-callback", "source": 'let r = map(func (i) => (import "./d/lib.ucg").v + i, [0]).0;', "cwds": ["p", "p/d", "/"]})
     seen = {}
@@ -524,6 +571,8 @@ def replay(case):
         part = work_positions([(c["position"], tpl, c["kind"], c["spelling"])])
     elif "std_dir_include" in c:
         part = work_std_named_dir([c["std_dir_include"]])
+    elif "std_prefix" in c:
+        part = work_std_prefix([(c["std_prefix"], c["spelling"])])
     elif "pkg_case" in c:
         part = work_pkg([c["pkg_case"]])
     elif "decoy_layout" in c:
